@@ -159,9 +159,32 @@ fn conv(a: &[String]) -> ! {
     std::process::exit(0)
 }
 
+/// `frag S:<seq>:<count>:<cache token hex16>:<payload token hex16> | A:<seq>:<fragment id>:<payload token hex16> ...`
+/// runs the calls on a real FragmentAssembler; each payload is the 8 bytes of its token; prints every result and pending_count
+fn frag(a: &[String]) -> ! {
+    use edp_client::fragmentation::FragmentAssembler;
+    let tok = |h: &str| u64::from_str_radix(h, 16).unwrap().to_be_bytes().to_vec();
+    let mut asm = FragmentAssembler::new();
+    for (i, c) in a[2..].iter().enumerate() {
+        let p: Vec<&str> = c.split(':').collect();
+        let seq: u64 = p[1].parse().unwrap();
+        let fid: u64 = p[2].parse().unwrap();
+        let r = if p[0] == "S" { asm.start_fragment(seq, fid, if p[3] == "-" { None } else { Some(tok(p[3])) }, tok(p[4])) } else { asm.add_fragment(seq, fid, tok(p[3])) };
+        match r {
+            None => println!("call {}: None", i),
+            Some(v) => println!("call {}: {}", i, v.iter().map(|b| format!("{:02x}", b)).collect::<String>()),
+        }
+    }
+    println!("pending_count: {}", asm.pending_count());
+    std::process::exit(0)
+}
+
 fn main() {
     let a: Vec<String> = std::env::args().collect();
     let kind = a[1].as_str();
+    if kind == "frag" {
+        frag(&a);
+    }
     if kind == "conv" {
         conv(&a);
     }
